@@ -24,7 +24,7 @@ func TestC14(t *testing.T) {
 	if h.Thorough() {
 		n = []string{"n1", "n2", "n3"}
 	}
-	churn := &w.Alpha{PodDev: []string{"unready", "fail"}, AddNodes: []string{"n9"}, DelNodes: true, Annots: []string{"rolling-update-paused=true", "rollout-frozen=true"}}
+	churn := &w.Alpha{PodDev: []string{"unready", "fail"}, AddNodes: []string{"n9"}, DelNodes: true, Taints: []string{"cordon"}, Annots: []string{"rolling-update-paused=true", "rollout-frozen=true"}}
 	// paused AND failed needs two deviations (auto-pause by restarts or user pause, then failure)
 	pausedFailed := &w.Alpha{Kubectl: []string{"canary-pause", "canary-fail"}, PodDev: []string{"restart:2", "restart:3"}}
 	scs := []scOpt{corpusS1(b, churn), corpusS2(n, "2", b, churn), corpusS3(n, "1", "auto", b, canaryDev()), corpusS3([]string{"n1", "n2"}, "1", "manual", 2, pausedFailed)}
